@@ -819,8 +819,6 @@ impl Read for VirtualSystem {
         async move {
             let ofd = ofd?;
             #[cfg(feature = "verif-hooks")]
-            sim_hook::preempt_point(system.process_id, "read").await;
-            #[cfg(feature = "verif-hooks")]
             let buffer = {
                 let is_fifo = matches!(ofd.borrow().inode().borrow().body, FileBody::Fifo { .. });
                 let n = sim_hook::clamp(system.process_id, fd, false, buffer.len(), is_fifo);
@@ -876,8 +874,6 @@ impl Write for VirtualSystem {
         let system = self.clone();
         async move {
             let ofd = ofd?;
-            #[cfg(feature = "verif-hooks")]
-            sim_hook::preempt_point(system.process_id, "write").await;
             #[cfg(feature = "verif-hooks")]
             let buffer = {
                 let is_fifo = matches!(ofd.borrow().inode().borrow().body, FileBody::Fifo { .. });
